@@ -44,15 +44,21 @@ func Copy(ctx context.Context, ids []ChunkID, src Store, dst WriteStore, n int, 
 	}
 
 	// Feed the workers, the context is cancelled if any goroutine encounters an error
+	var interrupted bool
 loop:
 	for _, c := range ids {
 		select {
 		case <-ctx.Done():
+			interrupted = true
 			break loop
 		case in <- c:
 		}
 	}
 	close(in)
 
-	return g.Wait()
+	err := g.Wait()
+	if err == nil && interrupted {
+		err = Interrupted{}
+	}
+	return err
 }
